@@ -325,6 +325,13 @@ func relevantHyps(hyps []*Term, goal *Term) []*Term {
 		}
 	}
 	walk(goal)
+	// ground hypotheses are all kept, so their symbols count too (an extensionality
+	// instance among them is what connects a goal "v = w" to the definitions of v, w)
+	for _, h := range hyps {
+		if h.op != "forall" {
+			walk(h)
+		}
+	}
 	var out []*Term
 	for _, h := range hyps {
 		if h.op != "forall" {
